@@ -669,7 +669,35 @@ pub fn history(tr: &mut Tracer, w: &mut World, rng: &mut Rng, p: &Profile) {
             }
         } else if take(p.w_cfg) {
             let r = |rng: &mut Rng| -> u128 { *rng.pick(&[0u128, 1, d / 100, d / 20, d / 10, d / 4, d / 2, d - 1, d, d + 1]) };
-            match rng.below(10) {
+            match rng.below(14) {
+                // the engine's fee pool / insurance fund address is changed (to a plain account), a fee-paying trade
+                // happens, and it is changed back
+                10 | 11 => {
+                    let fp = rng.chance(1, 2);
+                    let (a, b) = if fp { (None, Some(STRANGER)) } else { (Some(STRANGER), None) };
+                    tr.step(w, &Op::Eng { sender: ID_OWNER, funds: 0, m: EMsg::UpdCfg { owner: None, ifund: a, fpool: b, init: None, maint: None, plr: None, liqfee: None } });
+                    let op = mk_open(w, t, v, if rng.chance(1, 2) { Side::Buy } else { Side::Sell }, d * (1 + rng.below(20) as u128), d, 0); tr.step(w, &op);
+                    if rng.chance(1, 2) { tr.step(w, &Op::Eng { sender: t, funds: 0, m: EMsg::Close { vamm: v, limit: 0 } }); }
+                    let (a, b) = if fp { (None, Some(ID_FEEPOOL)) } else { (Some(ID_IFUND), None) };
+                    tr.step(w, &Op::Eng { sender: ID_OWNER, funds: 0, m: EMsg::UpdCfg { owner: None, ifund: a, fpool: b, init: None, maint: None, plr: None, liqfee: None } });
+                }
+                // the TWAP interval: just outside and just inside what the vAMM accepts
+                12 => { let tw = *rng.pick(&[0u64, 1, 59, 60, 61, 604799, 604800, 604801, 1_000_000]);
+                        tr.step(w, &Op::Vamm { sender: ID_OWNER, v, m: VMsg::UpdCfg { hold: None, oi: None, toll: None, spread: None, fluct: None, engine: None, ifund: None, feed: None, twap: Some(tw) } }); }
+                // the vAMM's insurance fund (who may close and open it besides nobody) and price feed addresses
+                13 => {
+                    if rng.chance(1, 2) {
+                        tr.step(w, &Op::Vamm { sender: ID_OWNER, v, m: VMsg::UpdCfg { hold: None, oi: None, toll: None, spread: None, fluct: None, engine: None, ifund: Some(STRANGER), feed: None, twap: None } });
+                        tr.step(w, &Op::Vamm { sender: STRANGER, v, m: VMsg::SetOpen(false) });
+                        tr.step(w, &Op::Vamm { sender: ID_OWNER, v, m: VMsg::SetOpen(true) });
+                        tr.step(w, &Op::Vamm { sender: ID_OWNER, v, m: VMsg::UpdCfg { hold: None, oi: None, toll: None, spread: None, fluct: None, engine: None, ifund: Some(ID_IFUND), feed: None, twap: None } });
+                    } else {
+                        let other = if rng.chance(1, 2) { ID_FEED } else { STRANGER };
+                        tr.step(w, &Op::Vamm { sender: ID_OWNER, v, m: VMsg::UpdCfg { hold: None, oi: None, toll: None, spread: None, fluct: None, engine: None, ifund: None, feed: Some(other), twap: None } });
+                        tr.step(w, &Op::Eng { sender: STRANGER, funds: 0, m: EMsg::PayFunding { vamm: v } });
+                        tr.step(w, &Op::Vamm { sender: ID_OWNER, v, m: VMsg::UpdCfg { hold: None, oi: None, toll: None, spread: None, fluct: None, engine: None, ifund: None, feed: Some(ID_FEED), twap: None } });
+                    }
+                }
                 // the owner closes a market and opens it again (with whatever open interest it carries), a trader
                 // trying to act in between
                 9 => { tr.step(w, &Op::Vamm { sender: ID_OWNER, v, m: VMsg::SetOpen(false) });
@@ -936,7 +964,10 @@ pub fn history(tr: &mut Tracer, w: &mut World, rng: &mut Rng, p: &Profile) {
                 tr.step(w, &Op::Eng { sender: actor, funds: 0, m: EMsg::Close { vamm: v, limit: 0 } });
             }
         } else if take(p.w_malformed) {
-            match rng.below(10) {
+            match rng.below(11) {
+                // the fee pool's owner sends collected fees on: nothing, an unregistered token, a real amount
+                10 => { let (tok, amt) = match rng.below(4) { 0 => (0u32, 0u128), 1 => (1, 1), 2 => (0, 1 + rng.below(1000) as u128), _ => (0, d * 1_000_000_000) };
+                        tr.step(w, &Op::Fp { sender: if rng.chance(4, 5) { ID_OWNER } else { t }, m: FMsg::Send { tok, amt, to: *rng.pick(&[STRANGER, t, ID_IFUND]) } }); }
                 0 => { tr.step(w, &Op::Eng { sender: t, funds: 0, m: EMsg::Open { vamm: v, side: Side::Buy, margin: 0, lev: d, limit: 0 } }); }
                 1 => { tr.step(w, &Op::Eng { sender: t, funds: 0, m: EMsg::Open { vamm: v, side: Side::Sell, margin: d, lev: 0, limit: 0 } }); }
                 2 => { tr.step(w, &Op::Eng { sender: t, funds: 0, m: EMsg::Open { vamm: STRANGER, side: Side::Buy, margin: d, lev: d, limit: 0 } }); }
